@@ -47,6 +47,39 @@ Theorem emit_uses_emit_check : forall c fuel esc s e,
   bind (emit_check (c_mode c) v) (fun _ => Ok (SigNormal, emit s1 (render_value esc v)))).
 Proof. exact exec_emit_uses_check. Qed.
 
+(* ... and so are the subscript / attribute sites (list index, map key, loop field; a missing one is
+   [u_handle_undefined]) and the iteration site of `for` *)
+Theorem access_uses_access_result : forall c fuel esc s a,
+  (forall i, eval c (S fuel) esc s (EItem a i) =
+     bind (eval c fuel esc s a) (fun '(x, s1) => bind (eval c fuel esc s1 i) (fun '(k, s2) =>
+     bind (item_result (c_mode c) x k) (fun v => Ok (v, s2))))) /\
+  (forall attr, eval c (S fuel) esc s (EAttr a attr) =
+     bind (eval c fuel esc s a) (fun '(x, s1) => bind (attr_result (c_mode c) x attr) (fun v => Ok (v, s1)))).
+Proof. intros. split; intros; [apply eval_item_uses_result | apply eval_attr_uses_result]. Qed.
+
+Theorem for_uses_iter_items : forall c fuel esc s tgt iter flt body els rc,
+  exec c (S fuel) esc s (SFor tgt iter flt body els rc) =
+  bind (eval c fuel esc s iter) (fun '(iv, s1) =>
+  bind (iter_items (c_mode c) iv) (fun items =>
+  bind (match flt with
+        | None => Ok (items, s1)
+        | Some fe => filter_items (c_mode c) (eval c fuel esc) tgt fe s1 items
+        end) (fun '(items, s2) =>
+  let n := lenZ items in
+  bind (loop_items (exec_list c fuel esc) tgt body n (push_frame s2 (mkFrame [] (Some (0, n, true)) None None false)) 0 items) (fun s5 =>
+  let s6 := pop_frame s5 in
+  match items, els with
+  | [], Some eb => exec_list c fuel esc s6 eb
+  | _, _ => Ok (SigNormal, s6)
+  end)))).
+Proof. exact exec_for_uses_iter_items. Qed.
+
+(* the access sites are monotone too (site_monotone, continued) *)
+Theorem access_site_monotone : forall m1 m2, weaker m1 m2 = true ->
+  (forall x k r, item_result m1 x k = Ok r -> item_result m2 x k = Ok r) /\
+  (forall x a r, attr_result m1 x a = Ok r -> attr_result m2 x a = Ok r).
+Proof. intros m1 m2 W. split; intros; [eapply item_result_mono | eapply attr_result_mono]; eauto. Qed.
+
 (* expressions, from any state *)
 Theorem eval_monotone : forall m1 m2 ctx esc0 fuel esc s e r, weaker m1 m2 = true ->
   eval (mkCfg m1 ctx esc0) fuel esc s e = Ok r -> eval (mkCfg m2 ctx esc0) fuel esc s e = Ok r.
@@ -74,7 +107,7 @@ Theorem stricter_only_adds_errors : forall m1 m2 ctx esc fuel body code, weaker 
   forall s1, Interp.run (mkCfg m1 ctx esc) fuel body <> Ok s1.
 Proof. intros * W H s1 H1. rewrite (run_monotone_proof _ _ _ _ _ _ _ W H1) in H. discriminate. Qed.
 
-(* the documented matrix: 8 sites x 4 modes, computed by the interpreter on the probe programs *)
+(* the documented matrix: 8 sites x 4 modes (and 7 sites about maps), computed by the interpreter on the probe programs *)
 Theorem matrix : forall m s, probe_result m s = documented m s.
 Proof. exact matrix_proof. Qed.
 
@@ -104,6 +137,35 @@ Proof.
   - exact do_filter_default_total.
 Qed.
 
+(* maps and unpacking, for every operand: a key the map has is its value and a key it does not have is an
+   undefined, in every mode; `m.a` is `m["a"]`; access on an undefined is the access site of the matrix;
+   iterating a map and `in` on a map consult no mode (given a defined left operand - an undefined one is
+   u_not_undef's business), `in` on an undefined container fails exactly under the two strict modes;
+   unpacking takes no mode at all ([bind_target]) and refuses an undefined with the same error everywhere *)
+Theorem map_sites :
+  (forall m kvs k v, map_get k kvs = Some v -> item_result m (VMap kvs) k = Ok v) /\
+  (forall m kvs k, map_get k kvs = None -> item_result m (VMap kvs) k = Ok VUndef) /\
+  (forall m kvs a, attr_result m (VMap kvs) a = item_result m (VMap kvs) (VStr false (attr_str a))) /\
+  (forall m x k, is_undef x = true -> item_result m x k = u_handle_undefined m true) /\
+  (forall m x a, is_undef x = true -> attr_result m x a = u_handle_undefined m true) /\
+  (forall m kvs, iter_items m (VMap kvs) = Ok (map fst kvs)) /\
+  (forall m a kvs, a <> VUndef ->
+     do_cmp m CIn a (VMap kvs) = Ok (match map_get a kvs with Some _ => true | None => false end)) /\
+  (forall m a, do_cmp m CIn a VUndef = if u_strictish m then Err E_UndefinedError else Ok false) /\
+  (forall x y s v, is_undef v = true -> bind_target (TPair x y) s v = Err E_CannotUnpack).
+Proof.
+  repeat match goal with |- _ /\ _ => split end.
+  - exact map_item_found_proof.
+  - exact map_item_missing_proof.
+  - exact map_attr_is_item_proof.
+  - exact item_of_undef_proof.
+  - exact attr_of_undef_proof.
+  - exact iter_map_proof.
+  - exact in_map_proof.
+  - exact in_undef_proof.
+  - exact unpack_undef_proof.
+Qed.
+
 (* non-vacuity: a template with undefined references that renders under Strict (and therefore under
    all four modes), and the order is strict: `{{ u }}` separates SemiStrict from Lenient, `{% if u %}`
    separates Strict from SemiStrict, `{{ u.a }}` separates Lenient from Chainable *)
@@ -120,6 +182,9 @@ Proof. split; [eexists; split; vm_compute; reflexivity|]. repeat split; vm_compu
 Print Assumptions weaker_is_total_order.
 Print Assumptions site_monotone.
 Print Assumptions emit_uses_emit_check.
+Print Assumptions access_uses_access_result.
+Print Assumptions for_uses_iter_items.
+Print Assumptions access_site_monotone.
 Print Assumptions eval_monotone.
 Print Assumptions exec_list_monotone.
 Print Assumptions run_monotone_state.
@@ -127,3 +192,4 @@ Print Assumptions run_monotone.
 Print Assumptions stricter_only_adds_errors.
 Print Assumptions matrix.
 Print Assumptions matrix_sites.
+Print Assumptions map_sites.
